@@ -86,9 +86,42 @@ def known_findings():
 
 # ------------------------------------------------------------------------------------------------ scenarios -> traces -> verdicts
 
-def gen_scenarios(family, n, seed, out, max_t=5, max_r=4, max_len=3, steps=5):
-    sh([os.path.join(BIN, "pie_run"), "gen", "--family", family, "--n", str(n), "--seed", str(seed), "--out", out,
-        "--max-t", str(max_t), "--max-r", str(max_r), "--max-len", str(max_len), "--steps", str(steps)], timeout=600)
+def gen_scenarios(family, n, seed, out, max_t=5, max_r=4, max_len=3, steps=5, fixed=None):
+    cmd = [os.path.join(BIN, "pie_run"), "gen", "--family", family, "--n", str(n), "--seed", str(seed), "--out", out,
+           "--max-t", str(max_t), "--max-r", str(max_r), "--max-len", str(max_len), "--steps", str(steps)]
+    if fixed:
+        cmd += ["--fixed", "%d,%d,%d" % fixed]
+    sh(cmd, timeout=600)
+
+
+def conformance(tag, scn_file, dims, label):
+    """Runs the scenarios of scn_file (all of dimensions dims) on the implementation and checks that every recorded stream is
+    a behaviour of Pie.tla; drifting scenarios are reported (MODEL-DRIFT, a warning) and skipped."""
+    scns = load_scenarios(scn_file)
+    result = {"batch": label, "scenarios": len(scns), "conforming": 0, "events": 0, "drift": [], "tlc": []}
+    remaining = scns
+    for _ in range(4):
+        if not remaining:
+            break
+        part = os.path.join(WORK, "%s.conf.jsonl" % tag)
+        trace = os.path.join(WORK, "%s.conf.ndjson" % tag)
+        with open(part, "w") as f:
+            for sc in remaining:
+                f.write(json.dumps(sc) + "\n")
+        run_scenarios(part, trace)
+        consumed, done, total, stats = run_conform(trace, dims, tag)
+        result["tlc"].append(stats)
+        result["conforming"] += done
+        result["events"] += consumed - 1
+        if done >= len(remaining):
+            break
+        bad = remaining[done]
+        lines = open(trace).read().split("\n")
+        ev = lines[consumed - 1][:300] if consumed - 1 < len(lines) else "<end of trace>"
+        result["drift"].append({"scenario": bad["id"], "line": consumed, "event": ev})
+        print("MODEL-DRIFT: scenario %s is not a behaviour of Pie.tla (first unmatched recorded event, line %d: %s)" % (bad["id"], consumed, ev))
+        remaining = remaining[done + 1:]
+    return result
 
 
 def run_scenarios(scn_file, trace_file, repeat=1):
@@ -138,20 +171,20 @@ def write_evidence(prop, tier, seed, level, coverage, wall_s, violations, assump
 
 # families of generated scenarios per property: (family, quick count, thorough count, generator options)
 PIE_PROPS = {
-    "C01": {"fams": [("WF", 90, 1500, {})], "curated": [], "design": ["td"]},
-    "C02": {"fams": [("WF", 90, 1500, {})], "curated": ["f1_same_target_twice.jsonl"], "design": ["td"]},
-    "C03": {"fams": [("WF", 90, 1500, {"steps": 6})], "curated": ["known_findings.jsonl"], "design": ["bu"]},
-    "C04": {"fams": [("WF", 90, 1500, {"steps": 6})], "curated": [], "design": ["bu"]},
-    "C05": {"fams": [("INJ", 120, 2000, {})], "curated": [], "design": ["inj"]},
-    "C06": {"fams": [("INJ", 90, 1500, {}), ("WF", 40, 600, {})], "curated": [], "design": ["inj"]},
-    "C07": {"fams": [("INJ", 120, 2000, {})], "curated": [], "design": ["inj"]},
-    "C08": {"fams": [("WF", 70, 1200, {}), ("TWOCHK", 40, 600, {})], "curated": ["k2_two_checkers.jsonl"], "design": ["td"]},
-    "C09": {"fams": [("WF", 90, 1500, {})], "curated": [], "design": ["td"]},
-    "C15": {"fams": [("IDENT", 90, 1500, {})], "curated": [], "design": []},
-    "C17": {"fams": [("WF", 60, 1000, {}), ("INJ", 30, 500, {}), ("FAULT", 20, 300, {})], "curated": [], "design": []},
-    "C18": {"fams": [("FAULT", 100, 1800, {})], "curated": [], "design": []},
-    "C19": {"fams": [("ABORT", 80, 1400, {}), ("INJ", 40, 600, {})], "curated": ["f2_abort_then_require.jsonl"], "design": []},
-    "C20": {"fams": [("ROLE", 90, 1500, {"max_t": 4}), ("WF", 40, 600, {})], "curated": ["known_findings.jsonl"], "design": []},
+    "C01": {"fams": [("WF", 300, 3000, {}), ("WF", 100, 1500, {"max_t": 7, "max_r": 5, "steps": 6})], "curated": ["known_findings.jsonl"], "design": ["td"]},
+    "C02": {"fams": [("WF", 250, 3000, {}), ("WF", 80, 1500, {"max_t": 7, "max_r": 5, "steps": 6})], "curated": ["f1_same_target_twice.jsonl"], "design": ["td"]},
+    "C03": {"fams": [("WF", 250, 3000, {"steps": 6}), ("WF", 150, 2000, {"max_t": 8, "max_r": 5, "steps": 7})], "curated": ["known_findings.jsonl"], "design": ["bu"]},
+    "C04": {"fams": [("WF", 250, 3000, {"steps": 6}), ("WF", 150, 2000, {"max_t": 8, "max_r": 5, "steps": 7})], "curated": [], "design": ["bu"]},
+    "C05": {"fams": [("INJ", 150, 2000, {}), ("INJ", 50, 700, {"max_t": 7, "max_r": 5})], "curated": [], "design": ["inj"]},
+    "C06": {"fams": [("INJ", 120, 1500, {}), ("WF", 40, 600, {})], "curated": [], "design": ["inj"]},
+    "C07": {"fams": [("INJ", 150, 2000, {}), ("INJ", 50, 700, {"max_t": 7, "max_r": 5})], "curated": [], "design": ["inj"]},
+    "C08": {"fams": [("WF", 90, 1200, {}), ("TWOCHK", 40, 600, {}), ("ABORT", 50, 800, {})], "curated": ["k2_two_checkers.jsonl"], "design": ["td"]},
+    "C09": {"fams": [("WF", 250, 3000, {}), ("WF", 80, 1500, {"max_t": 7, "max_r": 5, "steps": 6})], "curated": [], "design": ["td"]},
+    "C15": {"fams": [("IDENT", 110, 1500, {})], "curated": [], "design": []},
+    "C17": {"fams": [("WF", 70, 1000, {}), ("INJ", 30, 500, {}), ("FAULT", 30, 300, {}), ("ABORT", 20, 300, {})], "curated": [], "design": []},
+    "C18": {"fams": [("FAULT", 130, 1800, {}), ("FAULT", 40, 600, {"max_t": 7, "max_r": 5, "steps": 6})], "curated": [], "design": []},
+    "C19": {"fams": [("ABORT", 120, 1400, {}), ("INJ", 60, 600, {})], "curated": ["f2_abort_then_require.jsonl"], "design": []},
+    "C20": {"fams": [("ROLE", 300, 3000, {"max_t": 4}), ("WF", 60, 600, {})], "curated": ["known_findings.jsonl"], "design": []},
 }
 
 ASSUME_PIE = [
@@ -176,6 +209,8 @@ def run_pie_check(prop, tier, seed, replay):
     out_file = os.path.join(WORK, "%s.result.json" % tag)
     design = []
     sim_stats = None
+    sims = []
+    sim_cfg = None
     with open(scn_file, "w") as out:
         if not replay:
             quick_cfgs, more_cfgs, sim_cfg = PROP_DESIGN.get(prop, ([], [], None))
@@ -209,6 +244,20 @@ def run_pie_check(prop, tier, seed, replay):
     res = validate_trace(trace_file, out_file, tag)
     scns = load_scenarios(scn_file)
     by_id = {s["id"]: s for s in scns}
+    conf = []
+    if not replay:
+        # implementation -> specification at the level of single steps: recorded streams must be behaviours of Pie.tla
+        if sims:
+            cfile = os.path.join(WORK, "%s.confsim.jsonl" % tag)
+            with open(cfile, "w") as f:
+                for sc in sims[:80 if tier == "quick" else 1000]:
+                    f.write(json.dumps(sc) + "\n")
+            pr = dict(MC_DEFAULT)
+            pr.update(MC_CONFIGS[sim_cfg])
+            conf.append(conformance(tag, cfile, (pr["NT"], pr["NR"], pr["NV"], pr["NA"], pr["LEN"]), "TLC-simulated behaviours of " + sim_cfg))
+        cfile = os.path.join(WORK, "%s.confgen.jsonl" % tag)
+        gen_scenarios(spec["fams"][0][0], 60 if tier == "quick" else 800, seed * 1000 + 777, cfile, fixed=(4, 3, 3))
+        conf.append(conformance(tag, cfile, (4, 3, 4, 4, 3), "generated %s scenarios of fixed dimensions" % spec["fams"][0][0]))
     lines = None
     kfs_open = {(f["property"], f["finding"]): f for f in known_findings() if f["status"] == "open"}
     viol = [v for v in res["viol"] if v[3] == prop]
@@ -257,6 +306,8 @@ def run_pie_check(prop, tier, seed, replay):
         "transitions": res["tlc"]["generated"] + sum(d["generated"] for d in design) + (sim_stats["states_generated"] if sim_stats else 0),
         "design_configs": design, "design_simulation": sim_stats,
         "trace_validation": res["tlc"],
+        "conformance_with_operational_spec": conf,
+        "model_drift": sum(len(c["drift"]) for c in conf),
         "traces_validated_against_impl": len(res["runs"]),
         "samples": [summarize_scn(s) for s in scns[:2]],
         "evaluations": evals, "distinct_nontrivial": nontrivial,
@@ -288,7 +339,7 @@ def run_check(prop, tier, seed, replay):
 
 def setup():
     build_harness()
-    for m in ["PieCore", "PieMon", "PieTrace", "Pie", "DagCore", "DagPK", "DagTrace", "UnitModels", "UnitTrace", "TraceEq"]:
+    for m in ["PieCore", "PieMon", "PieTrace", "Pie", "DagCore", "DagPK", "DagTrace", "UnitModels", "UnitTrace", "TraceEq", "PieConform"]:
         p = sh(["tla-sany", m + ".tla"], cwd=SPEC, check=False, timeout=300)
         if "Semantic errors" in p.stdout or "Parse Error" in p.stdout or "Fatal errors" in p.stdout:
             raise ToolError("SANY rejects %s:\n%s" % (m, p.stdout[-2000:]))
@@ -311,7 +362,7 @@ NOT_YET = {}
 
 MC_DEFAULT = dict(NT=2, NR=1, NV=2, NA=2, LEN=2, Family="WF", Writer=[0], RChks=["eq"], OChks=["eq"], WChks=["eq"],
                   Fs=[0, 2], MaxSessions=2, MaxChanges=1, MaxRoots=1, MaxBU=0, CheckLeftoverOfAborted=False,
-                  EdgeReinsertMovesToBack=False, EmitScenarios=False)
+                  EdgeReinsertMovesToBack=False, EmitScenarios=False, Conform=False)
 
 # name -> parameter overrides.  Quick configurations finish in well under a minute each.
 MC_CONFIGS = {
@@ -319,6 +370,8 @@ MC_CONFIGS = {
     "td_2t1r": dict(RChks=["eq", "par"], MaxSessions=3, MaxChanges=2),
     "td_coarse": dict(RChks=["eq", "par", "any"], OChks=["eq", "res"], Fs=[2], MaxSessions=2, MaxChanges=1),
     "td_gen": dict(NR=2, Writer=[0, 2], Fs=[2], MaxSessions=2, MaxChanges=1),
+    "td_near": dict(RChks=["eq", "near"], OChks=["near", "eq"], NV=3, Fs=[3], MaxSessions=3, MaxChanges=2),
+    "bu_near": dict(RChks=["near"], OChks=["near"], NV=3, Fs=[3], MaxSessions=4, MaxChanges=2, MaxBU=2),
     "td_2t2r_gen": dict(NR=2, Writer=[0, 2], MaxSessions=2, MaxChanges=1),
     "td_3t1r": dict(NT=3, LEN=2, Fs=[2], MaxSessions=2, MaxChanges=1),
     "td_twice": dict(LEN=3, Fs=[2], MaxSessions=2, MaxChanges=1),
@@ -338,7 +391,7 @@ MC_CONFIGS = {
     "fault_2t1r": dict(Family="FAULT", RChks=["eqF"], Fs=[2], MaxSessions=2, MaxChanges=1),
     "fault_2t1r_bu": dict(Family="FAULT", RChks=["eqF"], Fs=[2], MaxSessions=3, MaxChanges=2, MaxBU=1),
     # wide universes for simulation only
-    "sim_wf": dict(NT=4, NR=3, Writer=[0, 0, 3], NV=3, NA=3, LEN=3, RChks=["eq", "par", "ex"], OChks=["eq", "res", "okeq"], Fs=[3],
+    "sim_wf": dict(NT=4, NR=3, Writer=[0, 0, 3], NV=3, NA=3, LEN=3, RChks=["eq", "par", "ex", "near"], OChks=["eq", "res", "okeq", "near"], Fs=[3],
                    MaxSessions=5, MaxChanges=4, MaxRoots=2, MaxBU=2),
     "sim_inj": dict(Family="INJ", NT=3, NR=3, Writer=[0, 0, 3], NV=3, NA=3, LEN=3, Fs=[3], MaxSessions=4, MaxChanges=2, MaxRoots=2, MaxBU=1),
     "sim_role": dict(Family="ROLE", NT=3, NR=2, Writer=[0, 0], NV=2, NA=3, LEN=3, Fs=[2], MaxSessions=4, MaxChanges=3, MaxRoots=2),
@@ -358,7 +411,7 @@ PROP_DESIGN = {
     "C06": (["inj_2t2r"], ["inj_2t2r_bu", "td_2t2r_gen"], "sim_inj"),
     "C07": (["inj_2t2r"], ["inj_2t2r_bu"], "sim_inj"),
     "C08": (["td_twice", "td_gen"], ["td_2t2r_gen", "bu_2t2r_gen"], "sim_wf"),
-    "C09": (["td_coarse"], ["td_2t1r", "bu_2t2r_gen"], "sim_wf"),
+    "C09": (["td_coarse", "td_near"], ["td_2t1r", "bu_2t2r_gen", "bu_near"], "sim_wf"),
     "C15": ([], [], None),
     "C17": (["bu_2t1r"], ["bu_2t2r_gen", "inj_2t2r_bu"], "sim_wf"),
     "C18": (["fault_2t1r"], ["fault_2t1r_bu"], "sim_fault"),
@@ -377,7 +430,7 @@ def tla_val(v):
     raise ValueError(v)
 
 
-def run_mc(name, overrides=None, workers=None, timeout=1800, simulate=None, extra_inv=""):
+def run_mc(name, overrides=None, workers=None, timeout=1800, simulate=None, extra_inv="", seed=None):
     """Model-checks Pie.tla under the named configuration; returns TLC statistics and the violated invariant if any."""
     params = dict(MC_DEFAULT)
     params.update(MC_CONFIGS.get(name, {}))
@@ -396,7 +449,7 @@ def run_mc(name, overrides=None, workers=None, timeout=1800, simulate=None, extr
     with open(cfg, "w") as f:
         f.write("SPECIFICATION Spec\nCONSTANTS\n")
         for k in ("NT", "NR", "NV", "NA", "LEN", "Family", "MaxSessions", "MaxChanges", "MaxRoots", "MaxBU",
-                  "CheckLeftoverOfAborted", "EdgeReinsertMovesToBack", "EmitScenarios"):
+                  "CheckLeftoverOfAborted", "EdgeReinsertMovesToBack", "EmitScenarios", "Conform"):
             f.write("  %s = %s\n" % (k, tla_val(params[k])))
         for k in ("Writer", "RChks", "OChks", "WChks", "Fs"):
             f.write("  %s <- MC%s\n" % (k, k))
@@ -409,6 +462,8 @@ def run_mc(name, overrides=None, workers=None, timeout=1800, simulate=None, extr
     cmd = ["timeout", str(timeout), "tlc", "-workers", str(w), "-metadir", md, "-cleanup", "-noGenerateSpecTE"]
     if simulate:
         cmd += ["-simulate", "num=%d" % simulate[0], "-depth", str(simulate[1])]
+        if seed is not None:
+            cmd += ["-seed", str(seed)]
     cmd += ["-config", cfg, mod + ".tla"]
     t0 = time.time()
     p = subprocess.run(cmd, cwd=d, env=e, stdout=subprocess.PIPE, stderr=subprocess.STDOUT, universal_newlines=True)
@@ -445,7 +500,7 @@ def tlc_scenarios(name, overrides, num, depth, seed, cap=150):
     harness scenarios (undefined program entries become `ret 0`; the trace spec reports reaching one)."""
     o = dict(overrides)
     o["EmitScenarios"] = True
-    r = run_mc(name, o, workers=1, timeout=600, simulate=(num, depth))
+    r = run_mc(name, o, workers=1, timeout=1800, simulate=(num, depth), seed=seed)
     if r["violated"]:
         return r, []
     seen = set()
@@ -728,7 +783,7 @@ def run_det_check(prop, tier, seed, replay):
             for c in ["known_findings.jsonl"]:
                 out.write(open(os.path.join(SCEN, c)).read())
             part = os.path.join(WORK, "C16.part.jsonl")
-            for k, (fam, nq, nth, opts) in enumerate([("WF", 70, 1500, dict(max_t=7, max_r=5, steps=6)), ("WF", 40, 800, dict(max_t=5, max_r=4, steps=7)),
+            for k, (fam, nq, nth, opts) in enumerate([("WF", 100, 2000, dict(max_t=8, max_r=5, steps=7)), ("WF", 60, 1000, dict(max_t=5, max_r=4, steps=7)),
                                                       ("ROLE", 20, 300, dict(max_t=4)), ("ABORT", 20, 300, {})]):
                 gen_scenarios(fam, nq if tier == "quick" else nth, seed * 1000 + 50 + k, part, **opts)
                 out.write(open(part).read())
@@ -784,3 +839,41 @@ ENGINE_OF["C13"] = "unit-trace"
 TECHNIQUE_OF["C13"] = TECHNIQUE_OF["C14"]
 ENGINE_OF["C16"] = "trace-eq"
 TECHNIQUE_OF["C16"] = "differential replay decided by TLC (TraceEq.tla): complete event streams of four replays must be identical"
+
+
+# ------------------------------------------------------------------------------------------------ conformance with Pie.tla
+
+def run_conform(trace_file, dims, tag, timeout=1800):
+    """Checks that every recorded run in trace_file (all of dimensions dims = (nt, nr, nv, na, len)) is a behaviour of Pie.tla.
+    Returns (consumed_line, completed_runs, total_lines, tlc result)."""
+    d = os.path.join(WORK, "mc")
+    os.makedirs(d, exist_ok=True)
+    mod = "MC_conform_" + tag
+    nt, nr, nv, na, ln = dims
+    with open(os.path.join(d, mod + ".tla"), "w") as f:
+        f.write("---- MODULE %s ----\nEXTENDS PieConform\n" % mod)
+        f.write("MCWriter == <<%s>>\nMCRChks == {\"eq\"}\nMCOChks == {\"eq\"}\nMCWChks == {\"eq\"}\nMCFs == {0}\n====\n" % ", ".join("0" for _ in range(nr)))
+    cfg = os.path.join(d, mod + ".cfg")
+    with open(cfg, "w") as f:
+        f.write("SPECIFICATION CSpec\nCONSTANTS\n  NT = %d\n  NR = %d\n  NV = %d\n  NA = %d\n  LEN = %d\n" % (nt, nr, nv, na, ln))
+        f.write('  Family = "WF"\n  MaxSessions = 1000\n  MaxChanges = 1000\n  MaxRoots = 1000\n  MaxBU = 1000\n')
+        f.write("  CheckLeftoverOfAborted = FALSE\n  EdgeReinsertMovesToBack = FALSE\n  EmitScenarios = FALSE\n  Conform = TRUE\n")
+        for k in ("Writer", "RChks", "OChks", "WChks", "Fs"):
+            f.write("  %s <- MC%s\n" % (k, k))
+        f.write("VIEW cview\nPOSTCONDITION AllConsumed\nCHECK_DEADLOCK FALSE\n")
+    md = os.path.join(d, "md_conform_" + tag)
+    shutil.rmtree(md, ignore_errors=True)
+    e = dict(os.environ)
+    e["JAVA_TOOL_OPTIONS"] = "-Xss512m -XX:+UseParallelGC -Xmx8g -DTLA-Library=%s" % SPEC
+    e["TRACE"] = trace_file
+    t0 = time.time()
+    p = subprocess.run(["timeout", str(timeout), "tlc", "-workers", "1", "-metadir", md, "-cleanup", "-noGenerateSpecTE", "-config", cfg, mod + ".tla"],
+                       cwd=d, env=e, stdout=subprocess.PIPE, stderr=subprocess.STDOUT, universal_newlines=True)
+    shutil.rmtree(md, ignore_errors=True)
+    out = p.stdout
+    mm = re.search(r'<<"CONFORM", (\d+), (\d+), (\d+)>>', out)
+    if not mm:
+        raise ToolError("conformance run failed:\n" + out[-3000:])
+    sm = re.search(r"(\d+) states generated, (\d+) distinct states found", out)
+    return int(mm.group(1)), int(mm.group(2)), int(mm.group(3)), {"distinct": int(sm.group(2)) if sm else 0, "generated": int(sm.group(1)) if sm else 0,
+                                                                   "wall_s": round(time.time() - t0, 1)}
